@@ -751,6 +751,52 @@ func rwOf(p interface{}) *sync.RWMutex {
 	case **sync.RWMutex:
 		return *v
 	}
+	// a struct that embeds a sync.RWMutex (var cache struct { sync.RWMutex; ... }; cache.RLock())
+	v := reflect.ValueOf(p)
+	if v.Kind() != reflect.Ptr || v.IsNil() {
+		return nil
+	}
+	if e := v.Elem(); e.Kind() == reflect.Ptr {
+		if e.IsNil() {
+			return nil
+		}
+		v = e
+	}
+	return embeddedRW(v.Elem(), 0)
+}
+
+func embeddedRW(v reflect.Value, depth int) *sync.RWMutex {
+	if depth > 3 || v.Kind() != reflect.Struct || !v.CanAddr() {
+		return nil
+	}
+	t := v.Type()
+	for i := 0; i < t.NumField(); i++ {
+		f := t.Field(i)
+		if !f.Anonymous {
+			continue
+		}
+		switch f.Type {
+		case rwMutexType:
+			return (*sync.RWMutex)(unsafe.Pointer(v.Field(i).UnsafeAddr()))
+		case reflect.PtrTo(rwMutexType):
+			if v.Field(i).IsNil() {
+				return nil
+			}
+			return (*sync.RWMutex)(unsafe.Pointer(v.Field(i).Pointer()))
+		case mutexType, reflect.PtrTo(mutexType):
+			return nil // the promoted Lock is this one's
+		}
+		fv := v.Field(i)
+		if fv.Kind() == reflect.Ptr {
+			if fv.IsNil() {
+				continue
+			}
+			fv = fv.Elem()
+		}
+		if m := embeddedRW(fv, depth+1); m != nil {
+			return m
+		}
+	}
 	return nil
 }
 
